@@ -84,6 +84,10 @@ func (exec *Executor) execArrayIndex(
 			}
 
 			for index := indexFrom; index <= indexTo; index++ {
+				if err := interrupted(ctx); err != nil {
+					return statusFailed, err
+				}
+
 				v := array[index]
 				if v == nil {
 					continue
